@@ -63,9 +63,10 @@ Record request := {
 
 Record variant := {
   v_validate_first : bool;   (* credentials (and tunnel/mapping agreement) checked before ANY branch of the dispatcher *)
-  v_secret_isvalid : bool }. (* the secret-key path refuses revoked / expired / inactive mappings *)
-Definition pinned : variant := {| v_validate_first := false; v_secret_isvalid := false |}.
-Definition current : variant := {| v_validate_first := true; v_secret_isvalid := true |}.
+  v_secret_isvalid : bool;   (* the secret-key path refuses revoked / expired / inactive mappings *)
+  v_wait_agree : bool }.     (* handleLocalBridgeWait compares the mapping of the bridge that APPEARS during its wait with the request's *)
+Definition pinned : variant := {| v_validate_first := false; v_secret_isvalid := false; v_wait_agree := false |}.
+Definition current : variant := {| v_validate_first := true; v_secret_isvalid := true; v_wait_agree := true |}.
 
 (* ServerTunnelHandler.HandleTunnelOpen: true = nil error.
    resume_supported: does the installed cloud control implement ValidateTunnelResumeToken (regenerated: Gen/C04.v
@@ -219,7 +220,9 @@ Record sys := mkSys {
   s_rt : tid -> option route;
   s_fwd : list (connref * tid);            (* cross-node forwards (or local waits) in progress: requester, tunnel *)
   s_log : list (connref * tid * bool);     (* ghost: every attachment ever made, with "was entitled at that moment" *)
-  s_park : list (connref * request * bool) }. (* requests polling the routing table (Parked), with "was entitled on arrival" *)
+  s_park : list (connref * request * bool);   (* requests polling the routing table (Parked), with "was entitled on arrival" *)
+  s_wait : list (connref * request * bool) }. (* requests inside handleLocalBridgeWait: the record said "on THIS node", they poll
+                                                  tunnelBridges (up to 5 s) for a bridge to appear under the tunnel id *)
 
 Inductive event :=
 | EOpen (cr : connref) (c : conn_id) (r : request)   (* a TunnelOpen packet on connection cr, whose registry state is c *)
@@ -228,7 +231,8 @@ Inductive event :=
 | ECloseBridge (t : tid)                             (* bridge lifecycle ends: removed from tunnelBridges *)
 | EEndForward (cr : connref) (t : tid)               (* a cross-node forward finishes *)
 | EResolve (cr : connref)                            (* the routing poll of the parked request of connection cr fires *)
-| ETimeout (cr : connref).                           (* ... or gives up (10 s) *)
+| ETimeout (cr : connref)                            (* ... or gives up (10 s / 5 s) *)
+| EWaitResolve (cr : connref).                       (* the tunnelBridges poll of a request inside handleLocalBridgeWait fires *)
 
 Definition upd {A} (f : N -> option A) (k : N) (x : option A) : N -> option A :=
   fun k' => if N.eqb k' k then x else f k'.
@@ -252,33 +256,35 @@ Definition step (v : variant) (cfg : config) (s : sys) (e : event) : sys :=
       | AttachSource =>
           match s_tun s t with
           | Some b => mkSys (s_db s) (upd (s_tun s) t (Some {| b_mid := b_mid b; b_src := Some cr; b_tgt := b_tgt b |}))
-                            (s_rt s) (s_fwd s) ((cr, t, ok) :: s_log s) (s_park s)
+                            (s_rt s) (s_fwd s) ((cr, t, ok) :: s_log s) (s_park s) (s_wait s)
           | None => s
           end
       | AttachTarget =>
           match s_tun s t with
           | Some b => mkSys (s_db s) (upd (s_tun s) t (Some {| b_mid := b_mid b; b_src := b_src b; b_tgt := Some cr |}))
-                            (s_rt s) (s_fwd s) ((cr, t, ok) :: s_log s) (s_park s)
+                            (s_rt s) (s_fwd s) ((cr, t, ok) :: s_log s) (s_park s) (s_wait s)
           | None => s
           end
       | NewBridge =>
           mkSys (s_db s) (upd (s_tun s) t (Some {| b_mid := r_mid r; b_src := Some cr; b_tgt := None |}))
-                (rt_register cfg (s_rt s) t (r_mid r)) (s_fwd s) ((cr, t, ok) :: s_log s) (s_park s)
-      | Forward | WaitLocal =>
-          mkSys (s_db s) (s_tun s) (s_rt s) ((cr, t) :: s_fwd s) ((cr, t, ok) :: s_log s) (s_park s)
+                (rt_register cfg (s_rt s) t (r_mid r)) (s_fwd s) ((cr, t, ok) :: s_log s) (s_park s) (s_wait s)
+      | Forward =>
+          mkSys (s_db s) (s_tun s) (s_rt s) ((cr, t) :: s_fwd s) ((cr, t, ok) :: s_log s) (s_park s) (s_wait s)
+      | WaitLocal =>                                    (* no acknowledgement yet: the request polls tunnelBridges *)
+          mkSys (s_db s) (s_tun s) (s_rt s) (s_fwd s) (s_log s) (s_park s) (s_wait s ++ [(cr, r, ok)])
       | Parked =>
-          mkSys (s_db s) (s_tun s) (s_rt s) (s_fwd s) (s_log s) (s_park s ++ [(cr, r, ok)])
+          mkSys (s_db s) (s_tun s) (s_rt s) (s_fwd s) (s_log s) (s_park s ++ [(cr, r, ok)]) (s_wait s)
       | Refuse _ | AckNoAttach => s
       end
-  | ESetMapping m x => mkSys (upd (s_db s) m x) (s_tun s) (s_rt s) (s_fwd s) (s_log s) (s_park s)
-  | ESetRoute t x => mkSys (s_db s) (s_tun s) (upd (s_rt s) t x) (s_fwd s) (s_log s) (s_park s)
+  | ESetMapping m x => mkSys (upd (s_db s) m x) (s_tun s) (s_rt s) (s_fwd s) (s_log s) (s_park s) (s_wait s)
+  | ESetRoute t x => mkSys (s_db s) (s_tun s) (upd (s_rt s) t x) (s_fwd s) (s_log s) (s_park s) (s_wait s)
   | ECloseBridge t =>
       match s_tun s t with      (* runBridgeLifecycle of an existing bridge: out of the map, routing record removed *)
-      | Some _ => mkSys (s_db s) (upd (s_tun s) t None) (rt_remove cfg (s_rt s) t) (s_fwd s) (s_log s) (s_park s)
+      | Some _ => mkSys (s_db s) (upd (s_tun s) t None) (rt_remove cfg (s_rt s) t) (s_fwd s) (s_log s) (s_park s) (s_wait s)
       | None => s
       end
   | EEndForward cr t =>
-      mkSys (s_db s) (s_tun s) (s_rt s) (filter (fun p => negb (N.eqb (fst p) cr && N.eqb (snd p) t)) (s_fwd s)) (s_log s) (s_park s)
+      mkSys (s_db s) (s_tun s) (s_rt s) (filter (fun p => negb (N.eqb (fst p) cr && N.eqb (snd p) t)) (s_fwd s)) (s_log s) (s_park s) (s_wait s)
   | EResolve cr =>
       (* lookupTunnelRouting finds a record -> processCrossNodeForward; credentials were checked on arrival only *)
       match find (parked_of cr) (s_park s) with
@@ -290,28 +296,41 @@ Definition step (v : variant) (cfg : config) (s : sys) (e : event) : sys :=
           | Some ro =>
               let ok' := ok && N.eqb (ro_mid ro) (r_mid r) in
               match cross v cfg ro r with
-              | Forward => mkSys (s_db s) (s_tun s) (s_rt s) ((cr, t) :: s_fwd s) ((cr, t, ok') :: s_log s) (unpark cr (s_park s))
-              | WaitLocal =>                            (* handleLocalBridgeWait: SetTargetConnection on the local bridge *)
-                  match s_tun s t with
-                  | Some b => mkSys (s_db s) (upd (s_tun s) t (Some {| b_mid := b_mid b; b_src := b_src b; b_tgt := Some cr |}))
-                                    (s_rt s) (s_fwd s) ((cr, t, ok') :: s_log s) (unpark cr (s_park s))
-                  | None => mkSys (s_db s) (s_tun s) (s_rt s) (s_fwd s) (s_log s) (unpark cr (s_park s))
-                  end
-              | _ => mkSys (s_db s) (s_tun s) (s_rt s) (s_fwd s) (s_log s) (unpark cr (s_park s))
+              | Forward => mkSys (s_db s) (s_tun s) (s_rt s) ((cr, t) :: s_fwd s) ((cr, t, ok') :: s_log s) (unpark cr (s_park s)) (s_wait s)
+              | WaitLocal =>                            (* the record says "this node": go on polling tunnelBridges *)
+                  mkSys (s_db s) (s_tun s) (s_rt s) (s_fwd s) (s_log s) (unpark cr (s_park s)) (s_wait s ++ [(cr, r, ok')])
+              | _ => mkSys (s_db s) (s_tun s) (s_rt s) (s_fwd s) (s_log s) (unpark cr (s_park s)) (s_wait s)
               end
           end
       end
-  | ETimeout cr => mkSys (s_db s) (s_tun s) (s_rt s) (s_fwd s) (s_log s) (unpark cr (s_park s))
+  | ETimeout cr => mkSys (s_db s) (s_tun s) (s_rt s) (s_fwd s) (s_log s) (unpark cr (s_park s)) (unpark cr (s_wait s))
+  | EWaitResolve cr =>
+      (* handleLocalBridgeWait finds a bridge registered under the tunnel id — whichever request created it, under whichever
+         mapping: the record that sent the request here may be gone or stale by now *)
+      match find (parked_of cr) (s_wait s) with
+      | None => s
+      | Some (_, r, ok) =>
+          let t := r_tid r in
+          match s_tun s t with
+          | None => s                                   (* nothing yet: keeps polling *)
+          | Some b =>
+              if v_wait_agree v && negb (N.eqb (b_mid b) (r_mid r)) then
+                mkSys (s_db s) (s_tun s) (s_rt s) (s_fwd s) (s_log s) (s_park s) (unpark cr (s_wait s))       (* "tunnel does not belong to the presented mapping" *)
+              else
+                mkSys (s_db s) (upd (s_tun s) t (Some {| b_mid := b_mid b; b_src := b_src b; b_tgt := Some cr |}))
+                      (s_rt s) (s_fwd s) ((cr, t, ok && N.eqb (b_mid b) (r_mid r)) :: s_log s) (s_park s) (unpark cr (s_wait s))
+          end
+      end
   end.
 
 Definition run (v : variant) (cfg : config) (s : sys) (es : list event) : sys := fold_left (step v cfg) es s.
 
 (* a fresh session manager: no bridges, no forwards; any mapping store, any routing table *)
 Definition init (d : db) (rt : tid -> option route) : sys :=
-  {| s_db := d; s_tun := fun _ => None; s_rt := rt; s_fwd := []; s_log := []; s_park := [] |}.
+  {| s_db := d; s_tun := fun _ => None; s_rt := rt; s_fwd := []; s_log := []; s_park := []; s_wait := [] |}.
 
 (* connection cr has a request polling the routing table *)
-Definition parked (s : sys) (cr : connref) : Prop := exists r ok, In (cr, r, ok) (s_park s).
+Definition parked (s : sys) (cr : connref) : Prop := exists r ok, In (cr, r, ok) (s_park s) \/ In (cr, r, ok) (s_wait s).
 
 (* connection cr receives tunnel traffic of tunnel t in state s *)
 Definition holds (s : sys) (cr : connref) (t : tid) : Prop :=
